@@ -397,7 +397,11 @@ def _loop_common(P, st, spec, cond_fn, body_prefix=None, label=None):
                 raise Unsupported(f"loop {label} writes field {name_} of an object that outlives the iteration; the contract must declare it (havoc_fields / may_write)")
         view2 = LocalsView(P, fr, pre)
         if spec.get("post_body"):
-            spec["post_body"](P, before, view2)
+            try:
+                spec["post_body"](P, before, view2)
+            except KeyError as e:
+                # a contract that names a local the (refactored) function no longer has cannot decide anything: undecided, not a crash of the checker
+                raise Unsupported(f"the contract of loop {label} refers to the local {e}, which the function no longer has")
         if inv is not None:
             P.prove(f"{label}.inv.keep", inv(P, view2, pre))
         if variant is not None:
